@@ -122,7 +122,9 @@ impl Validator {
                 }
             }
             if self.has_constraint_reference(&key) {
-                match self.tlds.remove(&key).ok_or_else(|| LinkerError {
+                // The definition stays visible while its constraints are linked, so that a
+                // constraint can refer to the type's own named numbers: `INTEGER { hi(20) } (0..hi)`
+                match self.tlds.get(&key).cloned().ok_or_else(|| LinkerError {
                     pdu: Some(key.clone()),
                     details: "Could not find toplevel declaration to remove!".into(),
                     kind: LinkerErrorType::MissingDependency,
